@@ -1,5 +1,5 @@
 PROPERTY = "C07"
-PACKAGES = ["./bridgesync"]
+PACKAGES = ["./bridgesync", "./l1infotreesync"]
 B = "github.com/agglayer/aggkit/bridgesync."
 TABLES = ["block", "bridge", "claim", "root", "rht"]
 OBLIGATIONS = []
@@ -30,8 +30,52 @@ _add(1, 2, 4, 40, ("thorough",))
 _add(0, 2, 2, 0, ("thorough",))
 _add(2, 2, 1, 1, ("thorough",))
 _add(2, 3, 2, 0, ("thorough",))
+_add(1, 4, 2, 0, ("quick", "thorough"))        # claim after four bridges: three or more leaves of the block are rolled back
+_add(2, 4, 1, 3, ("thorough",))
 for fnx in range(1, 31, 3):
     _add(1, 1, 4, fnx, ("thorough",))
+L1 = "github.com/agglayer/aggkit/l1infotreesync."
+L1TABLES = ["block", "l1info_leaf", "verify_batches", "l1_info_root", "l1_info_rht", "rollup_exit_root", "rollup_exit_rht"]
+
+
+def _shape(tokens):
+    v = 0
+    for t in reversed(tokens):
+        v = v * 4 + t
+    return v
+
+
+def _sname(tokens):
+    return " ".join({0: "info", 1: "announce", 2: "verify", 3: "|"}[t] for t in tokens)
+
+
+def _l1(chain, fb, t, fn, tiers):
+    OBLIGATIONS.append(dict(
+        name="C07.b L1 info store: blocks [%s], insert #%d into table %s fails while block %d is processed: nothing recorded; retry == fault-free run"
+             % (_sname(chain), fn, L1TABLES[t], fb),
+        harness=L1 + "ZZVerif_C07_L1InfoFault", params={"SHAPE": _shape(chain), "FB": fb, "T": t, "FN": fn}, tiers=tiers, reach=["fault", "end"],
+        time_limit_s=3000, bounds="event layout fixed, every field value symbolic; restart after the fault or not; observation as in C11 after the fault and after the retry"))
+
+
+Q2, T2 = ("quick", "thorough"), ("thorough",)
+_l1([0, 3, 0, 2, 3], 2, 0, 0, Q2)        # block row
+_l1([0, 3, 0, 2, 3], 2, 1, 0, Q2)        # leaf row (after nothing else)
+_l1([0, 3, 0, 2, 3], 2, 2, 0, Q2)        # verify-batches row: the leaf and its tree nodes are rolled back too
+_l1([0, 3, 0, 0, 3], 2, 3, 1, Q2)        # second root of the L1 info tree in the block: first leaf of the block rolled back
+_l1([0, 3, 0, 0, 3], 2, 4, 40, Q2)       # a tree node of the second leaf
+_l1([2, 3, 0, 2, 3], 2, 5, 0, Q2)        # rollup exit tree root
+_l1([2, 3, 0, 2, 3], 2, 6, 9, Q2)        # rollup exit tree node
+_l1([0, 3, 0, 0, 0, 0, 3], 2, 1, 3, Q2)  # fourth leaf row of the block: three leaves already added to the tree are rolled back
+_l1([0, 0, 3, 0, 0, 0, 0, 3], 2, 1, 3, T2)
+_l1([0, 3, 0, 0, 0, 2, 3], 2, 2, 0, T2)
+_l1([0, 3, 0, 0, 3], 2, 1, 1, T2)
+_l1([0, 3, 2, 2, 3], 2, 2, 1, T2)
+_l1([0, 3, 2, 2, 3], 2, 5, 1, T2)
+_l1([0, 0, 3], 1, 4, 35, T2)
+_l1([0, 3, 0, 1, 3], 2, 4, 5, T2)
+for fnx in (0, 8, 16, 24, 31):
+    _l1([0, 3, 0, 2, 3], 2, 4, fnx, T2)
+    _l1([0, 3, 0, 2, 3], 2, 6, fnx, T2)
 ASSUMPTIONS = ["faults are injected as failing INSERT statements (SQLite RAISE(ABORT) triggers natively; an error return in the SQL model); "
                "SQLite's own atomic commit is trusted", "Keccak collision-freeness for store keys; bridge leaves are non-zero"]
-OUTSIDE = "failing COMMIT (cannot be injected natively with triggers); process kill inside SQLite; L1 info and injected-GER stores: separate obligations; driver-level ordering (C05)"
+OUTSIDE = "failing COMMIT (cannot be injected natively with triggers); process kill inside SQLite; injected-GER store (single-statement transactions); driver-level ordering (C05)"
